@@ -9,13 +9,15 @@ LEVEL = "model_checking"
 def run(ck):
     q = ck.tier == "quick"
     w = ck.work
-    shapes, strings = os.path.join(w, "shapes.ndjson"), os.path.join(w, "strings.ndjson")
-    r = tlc_must_pass(tlc("MC_SerdeShape", "MC_SerdeShape.cfg", w, env={"OUT": shapes, "OUT_STR": strings}, workers=1, timeout=600), "C20 model")
+    shapes, strings, content = (os.path.join(w, x) for x in ("shapes.ndjson", "strings.ndjson", "content.ndjson"))
+    r = tlc_must_pass(tlc("MC_SerdeShape", "MC_SerdeShape.cfg", w, env={"OUT": shapes, "OUT_STR": strings, "OUT_CONTENT": content}, workers=1, timeout=600), "C20 model")
     ck.add_tlc(r, "constant level, exhaustive over the shape table: AllDuplicateFree, SelectionRecovers, PrintInjective")
     p = wire_common.gen(ck)
     rep = vh(["serde", "replay", "--shapes", shapes, "--strings", strings, "--bases", p["base"], "--headers", p["header"], "--seed", ck.seed,
               "--stride", 9 if q else 1], timeout=7000)
     ck.add_vh(rep, distinct_key="distinct_classes")
+    rep = vh(["serde", "content", "--cases", content, "--seed", ck.seed], timeout=3000)
+    ck.add_vh(rep, distinct_key="distinct_cases")
     ck.cov["rule"] = ("model: field names per (type, variant) pairwise distinct, variant selection by present names recovers the variant, string "
                       "tables injective; binding: JSON and CBOR round trip (==) of Transaction / TxIn / TxOut / witnesses / AssetIssuance / "
                       "OutPoint / Script / Sequence / LockTime / confidential Asset, Value, Nonce over the Wire shape family (quick: every "
@@ -23,5 +25,6 @@ def run(ck):
                       "newtypes, sighash types, and PSETs (minimal, fully populated, one per optional field of every map) incl. Input / "
                       "Output; emitted top-level field names compared with the specification (duplicates kept); Display / FromStr of "
                       "outpoints, ids, blinding factors, lock times, sequences, all ECDSA / Schnorr / PSET sighash types (named and raw), "
-                      "addresses, PSET base64; distinct = structural classes")
+                      "addresses, PSET base64; byte-string fields x content classes (random, ASCII hex of even / odd length, ASCII text, UTF-8, zeros, "
+                      "empty, 0xff): every (field, class) pair of the specification round-trips in JSON and CBOR; distinct = structural classes")
     ck.assumptions += ["fidelity inside a leaf codec (hex of 32 bytes etc.) is sampled, not modelled", "formats: serde_json 1.x and serde_cbor 0.8"]
